@@ -171,3 +171,37 @@ func zzEnc20(v Value) []byte {
 	WriteValue(out, v)
 	return out.ToByteArray()
 }
+
+// maps that went through a merge: two maps with the same keys in the same order (symbolic decimal
+// values), then one of them receives PutAll of a map holding one or both of its own entries with
+// identical values (also via the decoded copy). It still equals its former self, so its comparison
+// against the other map keeps its sign, and comparison still reverses sign when operands are swapped.
+//vf: paths=20000
+func ZZ_C20_MapAfterMerge() {
+	keys := []string{"x", "y", "k3"}
+	n := 2 + zzvf.Choose(2)
+	a, b := NewMapValue(), NewMapValue()
+	av := make([]int64, n)
+	for i := 0; i < n; i++ {
+		av[i] = zzvf.Int64()
+		a.PutLong(keys[i], av[i])
+		b.PutLong(keys[i], zzvf.Int64())
+	}
+	before := ReadValue(io.NewDataInputX(zzEnc20(a)))
+	c0 := zzSign(a.CompareTo(b))
+	zzvf.Assert(c0 == -zzSign(b.CompareTo(a)), "map-merge/sign-reversal-before")
+	same := NewMapValue()
+	first := zzvf.Choose(n)
+	same.PutLong(keys[first], av[first])
+	if zzvf.Choose(2) == 1 {
+		o := (first + 1) % n
+		same.PutLong(keys[o], av[o])
+	}
+	a.PutAll(same)
+	zzvf.Assert(zzvf.And(a.Equals(before), before.Equals(a)), "map-merge/merged-map-equals-its-former-self")
+	c1 := zzSign(a.CompareTo(b))
+	zzvf.Assert(c1 == c0, "map-merge/comparison-unchanged-by-merging-identical-entries")
+	zzvf.Assert(c1 == -zzSign(b.CompareTo(a)), "map-merge/sign-reversal-after")
+	zzvf.Assert(zzSign(before.CompareTo(b)) == c1, "map-merge/equal-maps-order-alike")
+	zzvf.Reach("map-merge")
+}
